@@ -6,7 +6,10 @@ use std::collections::hash_map::Entry as HEntry;
 use std::collections::{BTreeMap, HashMap, HashSet};
 use std::sync::Arc;
 
+#[cfg(not(feature = "verif"))]
 use parking_lot::RwLock;
+#[cfg(feature = "verif")]
+use crate::verif::sync::RwLock;
 
 use crate::errors::{Error, Result};
 use crate::metrics::Collector;
